@@ -107,8 +107,10 @@ def run_pipeline(spec: Dict[str, Any]) -> Dict[str, Any]:
                 s.advance_to(HORIZON)
                 break
             except SinkRaise:
+                s._is_enabled = False       # an exception out of the run loop leaves the virtual-time scheduler "enabled"
                 continue                    # the subscriber's own exception came back out of the scheduler: go on
             except cat.Fault:
+                s._is_enabled = False
                 ctx.ev(e="escape")          # an injected callback exception propagated into the emitter / scheduler
             except Exception as e:           # not ours: the catalogue fed the operator something it cannot take
                 foreign = e
@@ -190,7 +192,7 @@ def attribute(ev: List[Dict[str, Any]], upto: int, strict: bool) -> Tuple[str, s
         if disposed and not live:
             return ("C03", f"source subscriptions {sorted(opened)} still open after dispose()")
     if k == "cb":
-        if faulted:
+        if faulted and not live:
             return ("C09", "a user function was invoked after the pipeline had failed")
         if disposed and not live:
             return ("C03", "a user function was invoked after dispose() returned")
